@@ -38,9 +38,10 @@ const (
 	opSetWDL
 	opCall
 	opLClose
+	opYield
 )
 
-var kindNames = [...]string{"read", "write", "accept", "dial", "close", "setrdl", "setwdl", "call", "lclose"}
+var kindNames = [...]string{"read", "write", "accept", "dial", "close", "setrdl", "setwdl", "call", "lclose", "yield"}
 
 type op struct {
 	kind    opKind
@@ -218,6 +219,16 @@ func (s *Sim) call(o *op) {
 //go:norace
 func (s *Sim) Call(key string, fn func()) {
 	s.call(&op{kind: opCall, key: key, fn: fn})
+}
+
+// Yield parks the calling goroutine of the system under test at a synchronisation point (a
+// lock, unlock or pool operation of the repository's own code) until the scheduler resumes
+// it: other goroutines may be run in between, so interleavings between I/O operations are
+// decided by the scheduler as well.  key names the synchronisation object and operation.
+//
+//go:norace
+func (s *Sim) Yield(key string) {
+	s.call(&op{kind: opYield, key: key})
 }
 
 //go:norace
@@ -487,6 +498,8 @@ func opKey(o *op) string {
 		return kindNames[o.kind] + " " + string(o.l.addr)
 	case opCall:
 		return "call " + o.key
+	case opYield:
+		return "yield " + o.key
 	case opWrite:
 		if o.e.Opaque {
 			return "write " + o.e.Name
@@ -520,7 +533,7 @@ func (s *Sim) settle() {
 		}
 		rank := func(o *op) int {
 			switch o.kind {
-			case opRead, opWrite, opAccept, opDial:
+			case opRead, opWrite, opAccept, opDial, opYield:
 				return 0
 			case opCall:
 				return 1
@@ -778,9 +791,19 @@ type action struct {
 func (s *Sim) actions() []action {
 	var acts []action
 	seenW := map[string]bool{}
+	nY := map[string]int{}
 	for _, o := range s.pending {
 		o := o
 		switch o.kind {
+		case opYield:
+			// resuming sorts before everything else: choice 0 means "no preemption here"
+			k := fmt.Sprintf("-Y %s #%d", o.key, nY[o.key])
+			nY[o.key]++
+			acts = append(acts, action{k, func() {
+				s.J.Add(s, "resume", "%s", o.key)
+				s.Count("sched.sync_point")
+				s.finish(o)
+			}})
 		case opDial:
 			if l, ok := s.listeners[o.to]; (ok && l.Auto) || o.black {
 				continue
